@@ -29,6 +29,15 @@ func objectHoverOracle(run *Run, n int) {
 				Constraint: pick(r, []schema.Constraint{schema.LiteralType{Type: cty.String}, schema.AnyExpression{OfType: cty.String}, schema.LiteralType{Type: cty.Number},
 					schema.AnyExpression{OfType: cty.List(cty.String)}, schema.Reference{OfScopeId: "variable"}})}
 		}
+		// flags of the attributes (no random draw): required or optional, sensitive or not, in every combination
+		for k, nme := range names {
+			if a := oa[nme]; a != nil {
+				a.IsSensitive = (i+k)%2 == 0
+				if (i/2+k)%3 == 0 {
+					a.IsOptional, a.IsRequired = false, true
+				}
+			}
+		}
 		var cons schema.Constraint = schema.Object{Attributes: oa, AllowInterpolatedKeys: r.Intn(2) == 0}
 		switch r.Intn(4) {
 		case 0:
@@ -76,6 +85,53 @@ func objectHoverOracle(run *Run, n int) {
 		d, _ := w.Dec.Path(pd.Path)
 		tbl := lcTable([]byte(src))
 		loc := map[string]interface{}{"seed": run.Res.Seed, "object_hover": i, "src": src, "constraint": Show(consS(cons))}
+		// the object value itself (cursor on its opening brace): the listing names every declared attribute with
+		// exactly the flags the schema gives it
+		for _, at := range []int{obj.OpenRange.Start.Byte, obj.SrcRange.End.Byte - 1, obj.OpenRange.End.Byte} {
+			pos, ok := tbl[at]
+			if !ok {
+				continue
+			}
+			res := safeCall("HoverAtPos", func() (interface{}, error) { return d.HoverAtPos(ctx, "main.tf", pos) })
+			run.Res.Evaluations++
+			if hv, _ := res.Val.(*lang.HoverData); res.Panic == "" && res.Err == nil && hv != nil && strings.HasPrefix(hv.Content.Value, "```\n{\n") {
+				run.Count("object_value_hover_listings")
+				q := Query{Name: "HoverAtPos", Pos: &pos, File: "main.tf"}
+				lines := strings.Split(hv.Content.Value, "\n")
+				for nme, a := range oa {
+					var flags []string
+					if a.IsOptional {
+						flags = append(flags, "optional")
+					}
+					if a.IsSensitive {
+						flags = append(flags, "sensitive")
+					}
+					want := ""
+					if len(flags) > 0 {
+						want = " # " + strings.Join(flags, ", ")
+					}
+					found := false
+					for _, ln := range lines {
+						if !strings.HasPrefix(ln, "  "+nme+" = ") {
+							continue
+						}
+						found = true
+						got := ""
+						if k := strings.Index(ln, " # "); k >= 0 {
+							got = ln[k:]
+						}
+						if got != want {
+							run.Violate(Violation{Key: "C12/object-value-hover-attribute-flags", Rule: "inside a value the hover describes the innermost sub-expression the schema can interpret",
+								Func: "Object.HoverAtPos", Detail: fmt.Sprintf("attribute %q (optional=%v sensitive=%v) is listed as %q", nme, a.IsOptional, a.IsSensitive, ln), Replay: locWith(loc, q)})
+						}
+					}
+					if !found {
+						run.Violate(Violation{Key: "C12/object-value-hover-attribute-missing", Rule: "inside a value the hover describes the innermost sub-expression the schema can interpret",
+							Func: "Object.HoverAtPos", Detail: fmt.Sprintf("attribute %q is not listed in %q", nme, hv.Content.Value), Replay: locWith(loc, q)})
+					}
+				}
+			}
+		}
 		for _, it := range obj.Items {
 			raw, isRaw := rawKey(it.KeyExpr)
 			for off := it.KeyExpr.Range().Start.Byte; off <= it.ValueExpr.Range().End.Byte; off++ {
